@@ -336,6 +336,15 @@ impl Prop for C16 {
             2 => Dialect::PlainNoNumbers,
             _ => Dialect::Json,
         };
+        // `rg --json` records are exempt from --max-line-length (a cut record is no record): hits must
+        // survive a limit far below the length of every record
+        if dialect == Dialect::Json {
+            let mut f = t.fork(2);
+            if f.chance(1, 3) {
+                cfg.set("max-line-length", f.ps(&["80", "150", "300", "1"]));
+                ctx.class("json-records-longer-than-max-line-length");
+            }
+        }
         let identity = ctx.identity.clone();
         let (input, hits) = gen_stream(t, dialect, &identity);
         ctx.class(&format!("{:?}", dialect));
